@@ -487,6 +487,7 @@ fn transports(run: &mut Run, quick: bool) {
     admin.exec(&node, "use-db t tok");
     admin.exec(&node, "set k 1");
     let _ = admin.disconnect(&node);
+    crate::world::set_fallback_ctx(Some(node.ctx.clone()));
     let tcp = crate::tcp::TcpServer::start(node.dbs.clone());
     let http = crate::http::HttpServer::start(node.dbs.clone());
     let ws = crate::ws::WsServer::start(node.dbs.clone());
@@ -627,5 +628,6 @@ fn transports(run: &mut Run, quick: bool) {
     }
     run.cov("transport_lines", serde_json::json!(n));
     run.cov_add("transitions", n);
+    crate::world::set_fallback_ctx(None);
     node.remove_dir();
 }
